@@ -22,6 +22,7 @@ REGISTRY = {
     "C05": ("vverif.checks_types", "check_c05"),
     "C06": ("vverif.checks_names", "check_c06"),
     "C14": ("vverif.checks_names", "check_c14"),
+    "C12": ("vverif.checks_names", "check_c12"),
     "C15": ("vverif.checks_objsm", "check_c15"),
     "C16": ("vverif.checks_session", "check_c16"),
     "C20": ("vverif.checks_session", "check_c20"),
